@@ -363,7 +363,12 @@ def c04(ctx):
 
 
 def c04_level2(ctx):
-    pass
+    import e2e, c04l2
+    bins = e2e.build_all(ctx, race=False)
+    peer = ctx.build_bin("cmd/verifpeer", False)
+    if not bins or not peer:
+        return
+    c04l2.run(ctx, bins, peer, ctx.tier)
 
 
 SPECS = {
